@@ -687,7 +687,7 @@ func (r TypeInfo) IsInstanceOf(tc TypeClass) bool {
 
 	switch at := r.Type.(type) {
 	case *types.Named:
-		if at.Obj().Pkg().Path() == tc.Package.Path() && at.Obj().Name() == tc.Name {
+		if at.Obj().Pkg() != nil && at.Obj().Pkg().Path() == tc.Package.Path() && at.Obj().Name() == tc.Name {
 			return true
 		}
 	}
@@ -861,7 +861,7 @@ func (r TypeInfo) IsPtr() bool {
 func (r TypeInfo) IsTuple() bool {
 	switch nt := r.Type.(type) {
 	case *types.Named:
-		if nt.Obj().Pkg().Path() == "github.com/csgura/fp" && strings.HasPrefix(nt.Obj().Name(), "Tuple") {
+		if nt.Obj().Pkg() != nil && nt.Obj().Pkg().Path() == "github.com/csgura/fp" && strings.HasPrefix(nt.Obj().Name(), "Tuple") {
 			return true
 		}
 	}
@@ -871,7 +871,7 @@ func (r TypeInfo) IsTuple() bool {
 func (r TypeInfo) IsOption() bool {
 	switch nt := r.Type.(type) {
 	case *types.Named:
-		if nt.Obj().Pkg().Path() == "github.com/csgura/fp" && nt.Obj().Name() == "Option" {
+		if nt.Obj().Pkg() != nil && nt.Obj().Pkg().Path() == "github.com/csgura/fp" && nt.Obj().Name() == "Option" {
 			return true
 		}
 	}
